@@ -104,17 +104,22 @@ package desync
 
 //@ func NewChunk
 //@   prop C03
+//@   pure
 //@   ensures r0 != nil && r0.data == b && !r0.idCalculated
 
 //@ func NewChunkWithID
 //@   prop C03
+//@   pure
 //@   ensures err == nil ==> r0 != nil && r0.idCalculated && r0.id == id && r0.data == b
 //@   ensures err == nil && !skipVerify ==> H(plain(r0)) == id && len(b) > 0 && H(bytes(b)) == id
 
 //@ func NewChunkFromStorage
 //@   prop C03
+//@   pure
 //@   ensures err == nil ==> r0 != nil && r0.idCalculated && r0.id == id
 //@   ensures err == nil && !skipVerify ==> H(plain(r0)) == id
+//# the only error is ChunkInvalid for the requested ID (what verify/repair and the caches key on)
+//@   ensures err != nil ==> r0 == nil && is(err, ChunkInvalid) && as(err, ChunkInvalid).ID == id
 
 // ---------------------------------------------------------------------------- store interfaces
 
@@ -694,9 +699,15 @@ package desync
 
 //# the server allocates for chunk data coming from its own store, not from the request stream
 //@ func (s *ProtocolServer) Serve
-//@   prop C19
+//@   prop C19 C14
+//@   safety C19
 //@   requires $consumed >= 0
 //@   loop 1: invariant $consumed >= 0
+//# C14: the session ends only on goodbye, abort, cancellation or an error; in particular not after answering MISSING
+//@   ghost@entry $done = false
+//@   ghost@after:SendMissing $done = ($r0 == nil)
+//@   ghost@loop1.head $done = false
+//@   ensures @C14 r0 == nil ==> !$done
 
 // ---------------------------------------------------------------------------- C04: index files
 
@@ -1142,3 +1153,75 @@ package desync
 //@   oncall IndexFromReader: requires h.writable
 //@   oncall StoreIndex: requires h.writable && $attempts == 1 && $last == nil && $arg0 == indexName && $arg1 == idx
 //@   ensures !h.writable ==> $status == 400
+
+// ---------------------------------------------------------------------------- C14: remote transports
+
+//@ ghost var $st int
+//# $st: status code answered by the latest (retryable) request
+
+//# one HTTP exchange through net/http: does not touch the repository's own data structures
+//@ func (r *RemoteHTTPBase) IssueHttpRequest
+//@   trusted
+//@   pure
+//@   ensures !is(r2, NoSuchObject) && !is(r2, ChunkMissing) && !is(r2, ChunkInvalid)
+
+//@ func (r *RemoteHTTPBase) IssueRetryableHttpRequest
+//@   prop C14
+//@   safety none
+//@   pure
+//@   modifies $attempts, $last, $st
+//@   ghost@entry $attempts = 0
+//@   ghost@after:IssueHttpRequest $attempts = $attempts + 1
+//@   ghost@after:IssueHttpRequest $last = $r2
+//@   ghost@after:IssueHttpRequest $st = $r0
+//@   label retry: invariant attempt >= 0 && $attempts == attempt && (attempt > 0 ==> attempt < r.opt.ErrorRetry)
+//# at most max(1, ErrorRetry) attempts; a status is handed out only from an attempt that had no transport error and
+//# was not a 5xx; a failed final attempt never looks like a normal status
+//@   ensures $attempts >= 1 && ($attempts <= r.opt.ErrorRetry || $attempts == 1)
+//@   ensures r2 == nil && r0 != 0 ==> $last == nil && r0 == $st && !(r0 >= 500 && r0 < 600)
+//@   ensures r2 != nil ==> r2 == $last && $attempts >= r.opt.ErrorRetry
+//@   ensures !is(r2, NoSuchObject) && !is(r2, ChunkMissing) && !is(r2, ChunkInvalid)
+//@   ensures $last == nil && !($st >= 500 && $st < 600) ==> r2 == nil && r0 == $st
+
+//@ func (r *RemoteHTTPBase) GetObject
+//@   prop C14
+//@   safety none
+//@   pure
+//@   modifies $attempts, $last, $st
+//# 200 => the body, 404 => NoSuchObject, everything else (incl. exhausted retries) => another error
+//@   ensures r1 == nil ==> $last == nil && $st == 200
+//@   ensures is(r1, NoSuchObject) ==> $last == nil && $st == 404
+//@   ensures $last == nil && $st == 200 ==> r1 == nil
+//@   ensures $last == nil && $st == 404 ==> is(r1, NoSuchObject)
+//@   ensures !is(r1, ChunkMissing) && !is(r1, ChunkInvalid)
+
+//@ func (r *RemoteHTTPBase) StoreObject
+//@   prop C14
+//@   safety none
+//@   pure
+//@   modifies $attempts, $last, $st
+//@   ensures r0 == nil <==> ($last == nil && ($st == 200 || $st == 201))
+
+//@ func (r *RemoteHTTP) GetChunk
+//@   prop C14 C03
+//@   safety none
+//@   modifies $attempts, $last, $st
+//@   oncall NewChunkFromStorage: requires $arg0 == id && $arg2 == r.converters && $arg3 == r.opt.SkipVerify
+//@   ensures @C14 is(r1, ChunkMissing) <==> ($last == nil && $st == 404)
+//@   ensures @C14 r1 == nil ==> $last == nil && $st == 200
+//@   ensures @C03 r1 == nil ==> r0 != nil && r0.idCalculated && r0.id == id && (H(plain(r0)) == id || r.opt.SkipVerify)
+
+//@ func (r *RemoteHTTP) HasChunk
+//@   prop C14
+//@   safety none
+//@   modifies $attempts, $last, $st
+//@   ensures r1 == nil && r0 <==> ($last == nil && $st == 200)
+//@   ensures r1 == nil && !r0 <==> ($last == nil && $st == 404)
+
+//@ func (r *RemoteSSH) HasChunk
+//@   prop C14
+//@   safety none
+//@   ghost@after:GetChunk $last = $r1
+//@   ensures is($last, ChunkMissing) ==> !r0 && r1 == nil
+//@   ensures $last == nil ==> r0 && r1 == nil
+//@   ensures $last != nil && !is($last, ChunkMissing) ==> !r0 && r1 == $last
